@@ -100,6 +100,9 @@ func one(src []byte, mode int) {
 		}
 		if design {
 			for _, r := range reasons {
+				if r == scangen.ReasonSemiOrder && strings.HasPrefix(where, "errors:") {
+					r = scangen.ReasonLookahead
+				}
 				o.Oracle(r, line, where)
 			}
 		}
